@@ -466,4 +466,5 @@ func checkC07(c *Ctx) {
 	}
 	checkC07InitKey(c)
 	checkC07ResetRewinds(c)
+	checkC07UndoKeepsStart(c)
 }
